@@ -144,11 +144,16 @@ pub fn handle(st: &mut KkcState, op: &str, arg: &str) -> Option<String> {
             let word = parse_cps(&w);
             let n: u64 = f[1].parse().unwrap_or(0);
             // counts can only be built by confirmations; rebuild the state so that the count is exactly n
-            let old = std::mem::replace(&mut st.freq, ConversionFrequency::new());
-            let bytes = postcard::to_allocvec(&old).unwrap();
-            let _ = bytes;
-            st.freq = old;
-            let cur = st.freq.get_frequency_of_word(&word, &ctx);
+            // read through the hook, not through the public look-up: the history the oracle describes (search, update,
+            // search) must not contain a look-up of our own in between
+            let cname = format!("{:?}", ctx);
+            let cur = st
+                .freq
+                .verif_entries()
+                .into_iter()
+                .find(|(c, w, _, _)| *c == cname && *w == word)
+                .map(|(_, _, n, _)| n)
+                .unwrap_or(0);
             if cur > n {
                 return Some("cannot-decrease".into());
             }
@@ -156,6 +161,20 @@ pub fn handle(st: &mut KkcState, op: &str, arg: &str) -> Option<String> {
                 st.freq.update_word(&word, &ctx, 0);
             }
             "ok".into()
+        }
+        // the learned counts serialised and read back, as a save followed by a restart does
+        "kfreqrt" => {
+            let bytes = match postcard::to_allocvec(&st.freq) {
+                Ok(b) => b,
+                Err(_) => return Some("serialize-error".into()),
+            };
+            match postcard::from_bytes::<ConversionFrequency>(&bytes) {
+                Ok(f) => {
+                    st.freq = f;
+                    "ok".into()
+                }
+                Err(_) => "deserialize-error".into(),
+            }
         }
         "klattice" => {
             let (c, inp) = split_head(arg);
